@@ -1,7 +1,9 @@
 // C08 wrapper: a real MockSupport object of its own (not the global mock()) is driven step by step
 // by the harness: expectations, actual calls, checkExpectations.  The failure reporter installed with
-// setMockFailureStandardReporter hands the first line of every failure to the harness (h_fail_hook),
-// which checks the verdict/diagnosis and ends the path there: a failing mock check leaves the test.
+// setMockFailureStandardReporter hands the message of a failure to the harness (h_fail_hook), which
+// checks the diagnosis and the step at which it arrives and ends the path there: a failing mock check
+// leaves the test.  (In the translated world the Mock*Failure constructors are stubs of the harness
+// that record the failure class; the message pointer is not looked at there.)
 #define private public
 #define protected public
 #include "CppUTest/TestHarness.h"
@@ -61,16 +63,12 @@ void h_init(void)
 void h_strict(void) { mock_->strictOrder(); }
 void h_ignore_others(void) { mock_->ignoreOtherCalls(); }
 void h_expect(unsigned n, int fch) { exp_ = &mock_->expectNCalls(n, fn(fch)); }
-void h_expect_one(int fch) { exp_ = &mock_->expectOneCall(fn(fch)); }
-void h_exp_param(int psel, int value) { exp_->withParameter(pn(psel), value); }
+void h_exp_param(int pch, int value) { exp_->withParameter(pn(pch), value); }
 void h_exp_object(int osel) { exp_->onObject(&obj_[osel & 1]); }
 void h_exp_return(int value) { exp_->andReturnValue(value); }
-void h_actual(int fsel) { act_ = &mock_->actualCall(fn(fsel)); }
+void h_actual(int fch) { act_ = &mock_->actualCall(fn(fch)); }
 void h_act_object(int osel) { act_->onObject(&obj_[osel & 1]); }
-void h_act_param(int psel, int value) { act_->withParameter(pn(psel), value); }
+void h_act_param(int pch, int value) { act_->withParameter(pn(pch), value); }
 int h_act_return(int dflt) { return act_->returnIntValueOrDefault(dflt); }
 void h_check(void) { mock_->checkExpectations(); }
-int h_expected_calls_left(void) { return mock_->expectedCallsLeft() ? 1 : 0; }
-void h_clear(void) { mock_->clear(); }
-unsigned long h_failures(void) { return shell_->getTestResult()->getFailureCount(); }
 }
